@@ -8,6 +8,39 @@ use lsp_types::Position;
 use oal_model::locator::Locator;
 use oal_model::span::{CharSpan, Span};
 
+macro_rules! edit_harness {
+    ($k:literal, $b:literal, $unw:literal, $name:ident) => {
+        /// C15 kernel: for an edit range (p, q) with p <= q, both protocol-defined
+        /// positions, the server's offsets (position_to_utf8 on its copy) are exactly the
+        /// client's (reference conversion), ordered, within the text and on character
+        /// boundaries - so `replace_range(start..end, ..)` cannot panic and changes the
+        /// same bytes the client changed.
+        #[kani::proof]
+        #[kani::unwind($unw)]
+        fn $name() {
+            let mut buf = [0u8; $b];
+            let (text, n) = sym_text::<$k, $b>(&mut buf);
+            let b = text.as_bytes();
+            let (pl, pc, ql, qc): (u32, u32, u32, u32) = kani::any();
+            kani::assume(pl < ql || (pl == ql && pc <= qc));
+            let (cs, xs) = ref_position_to_offset(b, pl, pc);
+            let (ce, xe) = ref_position_to_offset(b, ql, qc);
+            kani::assume(xs && xe);
+            let start = position_to_utf8(text, Position { line: pl, character: pc });
+            let end = position_to_utf8(text, Position { line: ql, character: qc });
+            assert!(start == cs && end == ce);
+            assert!(start <= end && end <= b.len());
+            assert!(text.is_char_boundary(start) && text.is_char_boundary(end));
+            kani::cover!(n == $k && start > 0 && start < end && end < b.len(), "interior edit");
+            kani::cover!(n == $k && ql > pl && end == b.len(), "edit up to the end of the text");
+        }
+    };
+}
+edit_harness!(3, 12, 14, c15_edit_offsets_k3);
+edit_harness!(4, 16, 18, c15_edit_offsets_k4);
+edit_harness!(5, 20, 22, c15_edit_offsets_k5);
+edit_harness!(6, 24, 26, c15_edit_offsets_k6);
+
 macro_rules! unicode_harnesses {
     ($k:literal, $b:literal, $unw:literal,
      $h1:ident, $h2:ident, $h3:ident, $h4:ident, $h5:ident, $h6:ident) => {
